@@ -10,6 +10,7 @@ Register r15("C15", [](Tier t) {
                         genOps({{0, 10, 0, 5, 2}, {1, 3, 0, 5, 2}, {2, 2, 0, 0, 2}, {3, 6, 0, 0, 2}, {4, 2, 0, 0, 2}, {5, 4, 0, 0, 2}, {6, 6, 0, 5, 2}}, n));
     auto router = genCase("C15", genHeader({{2, 2}, {0, 9}, {0, 3}, {0, 0}}),
                           genOps({{0, 8, 7, 26, 2}, {1, 6, 7, 26, 2}, {2, 4, 7, 26, 2}, {3, 3, 7, 26, 2}, {4, 2, 7, 26, 2}, {5, 2, 7, 26, 2}}, n));
-    return rc::gen::weightedOneOf<Case>({{2, resource}, {4, pool}, {3, router}});
+    auto thread = genCase("C15", genHeader({{3, 3}, {0, 9}, {0, 2}, {0, 0}}), rc::gen::just(std::vector<Op>{}));
+    return rc::gen::weightedOneOf<Case>({{2, resource}, {4, pool}, {3, router}, {1, thread}});
 });
 } // namespace
